@@ -296,7 +296,9 @@ class Interp:
         self.call_counts = {}
         self._const_cache = {}
         self._lin_tables = {}
-        self.deadline = (time.time() + self.opts["max_seconds"]) if self.opts.get("max_seconds") else None
+        # wall-clock bail-out for runaway explorations only (the step budget is the deterministic bound): generous, so that a
+        # loaded machine does not turn a normal run into "no verdict"
+        self.deadline = (time.time() + self.opts["max_seconds"] * float(os.environ.get("VERIF_TIME_FACTOR", "4"))) if self.opts.get("max_seconds") else None
 
     # ----------------------------------------------------------------- locations
     def read_loc(self, st, loc):
